@@ -59,11 +59,16 @@ fn answer(line: &str) -> String {
             let delta: u64 = it.next().unwrap().parse().unwrap();
             let q: u64 = it.next().unwrap().parse().unwrap();
             let base: u64 = it.next().map(|x| x.parse().unwrap()).unwrap_or(1000);
+            // optional: after <after> reads every read costs <late_delta> ticks
+            let after: u64 = it.next().map(|x| x.parse().unwrap()).unwrap_or(0);
+            let late_delta: u64 = it.next().map(|x| x.parse().unwrap()).unwrap_or(0);
             clock::configure(delta, q);
+            clock::configure_late(after, late_delta);
             clock::new_epoch(base);
             clock::install(freq);
             let r = guarded(|| verif::tsc_timer_precision(freq).to_string());
             clock::remove();
+            clock::configure_late(0, 0);
             r
         }
         "T" => {
